@@ -87,10 +87,33 @@ def ns_history(ctx):
     return L, 0, 1760, {"flavour": flav, "slot": slot, "colliding": [hexs(c) for c in coll]}
 
 
+def slot_history(ctx):
+    """every hash slot as the only occupied one of a directory: delete the directory (must be refused), delete the child, delete again"""
+    rng = ctx.rng
+    flav = rng.choice(gen.FLAVOURS)
+    slots = [0, 1, 35, 70, 71] if ctx.tier == "quick" else list(range(72))
+    L = gen.dev_create("DD", flav) + ["mountdev 0", "mount 0 0"]
+    for sidx in slots:
+        nm = gen.colliding_names(rng, flav, sidx, 2)
+        d = b"d%02d" % sidx
+        kind = rng.choice(["file", "dir"])
+        L.append("mkdir - %s" % hexs(d))
+        if kind == "file":
+            L += ["open 0 %s %s w" % (hexs(d), hexs(nm[0])), "write 0 %d 30" % (sidx + 1), "close 0"]
+        else:
+            L.append("mkdir %s %s" % (hexs(d), hexs(nm[0])))
+        L += ["rm - %s" % hexs(d), "list - 0 0", "lookup %s %s" % (hexs(d), hexs(nm[0])), "free"]
+        if rng.random() < 0.5:
+            L += ["rm %s %s" % (hexs(d), hexs(nm[0])), "rm - %s" % hexs(d)]
+    L += ["free", "umount", "umountdev", "dump $W/img1", "spectree"]
+    return L, 0, 1760, {"flavour": flav, "slots": slots}
+
+
 def run(ctx):
     proof = common.proof_status(ctx)
     n = 40 if ctx.tier == "quick" else 800
-    b = [("namespace", ns_history) for _ in range(n)]
+    b = [("hash-slot-sweep", slot_history) for _ in range(3 if ctx.tier == "quick" else 30)]
+    b += [("namespace", ns_history) for _ in range(n)]
     rule = ("random namespace call sequences over nested directories with 6 names colliding in one hash slot + 3 in another + case variants; every failing "
             "call kind occurs (duplicate, missing, not empty, into own subtree); image decoded and compared with the model every 12 calls; "
             "non-trivial = at least one failing call and one successful rename; distinct = distinct script")
